@@ -4,7 +4,7 @@
    The positive theorems are about the repaired algorithm; the theorems named *_refuted /
    *_current_* state what the pinned code does instead (findings F3, F4, F5 and the dropped
    CorrFunc member). *)
-From Verif Require Import Prelude Containers ContainersP.
+From Verif Require Import Prelude Containers ContainersP ContainersAcc ContainersAccP.
 Open Scope Q_scope.
 
 (* ---------------- addition ---------------- *)
@@ -286,6 +286,29 @@ Theorem C17_cf_add_current_refuted :
     cf_add a b = None /\ cf_add b a = None.
 Proof. exact cf_add_current_refuted. Qed.
 Print Assumptions C17_cf_add_current_refuted.
+
+(* ---------------- running totals (total = 0; total += c ...; sum(parts)) ---------------- *)
+(* for any number of operands: binning / auto / shape of the first operand, every entry the sum of
+   the operands' entries; containers are values, so the operands themselves are what they were *)
+Theorem C17_running_total : forall l r,
+  Forall (fun c => pc_wfb c = true) l -> pc_accum l = Some r ->
+  exists a t, l = a :: t /\ pc_bin r = pc_bin a /\ pc_auto r = pc_auto a /\ pc_nb r = pc_nb a /\
+  pc_np r = pc_np a /\ forall bi i j, (bi < pc_nb a)%nat -> (i < pc_np a)%nat -> (j < pc_np a)%nat ->
+    nth3 (pc_counts r) bi i j == qsum (map (fun c => nth3 (pc_counts c) bi i j) l).
+Proof. exact accum_counts. Qed.
+Print Assumptions C17_running_total.
+
+(* it is defined exactly when every further operand is compatible with the first *)
+Theorem C17_running_total_defined : forall t a,
+  pc_wf a -> Forall pc_wf t ->
+  ((exists r, pc_accum_from a t = Some r) <-> Forall (fun c => pc_compat a c = true) t).
+Proof. exact accum_defined_iff. Qed.
+Print Assumptions C17_running_total_defined.
+
+Example C17_running_total_concrete :
+  let c := c17_pc_example in
+  omap pc_counts (pc_accum [c; c; pc_mul 2 c]) = Some (pc_counts (pc_mul 4 c)).
+Proof. vm_compute. reflexivity. Qed.
 
 (* non-vacuity: a concrete 2-bin, 3-patch container: patches [0,2] then sampling; the
    jackknife sample that leaves out patch 2 as well is the single entry [0][0] *)
